@@ -10,6 +10,13 @@ def align_outputs(script, stdout):
         outs = smtlib.parse_sexps(stdout)
     except smtlib.ParseError as e:
         return None, f"unparsable output: {e}"
+    # a rejected assert prints two diagnostics (the reason, then "assertion returns an unknown sort"): fold them
+    folded = []
+    for o in outs:
+        if folded and is_error(o) and is_error(folded[-1]) and len(o) > 1 and o[1] == ("str", "assertion returns an unknown sort"):
+            continue
+        folded.append(o)
+    outs = folded
     res, k = [], 0
     for i, (name, payload) in enumerate(script.commands):
         if name == "exit":
@@ -64,7 +71,7 @@ def check_models(script_text, stdout, expect_legal=True):
     declared_so_far = []
     pos = {i: (name, out) for i, name, out in al}
     for i, (name, payload) in enumerate(sc.commands):
-        if name in ("declare-fun", "declare-const"):
+        if name in ("declare-fun", "declare-const") and i not in rejected:
             declared_so_far.append(payload)
         if i not in pos:
             continue
